@@ -1,8 +1,10 @@
 package main
 
 import (
+	"context"
 	"fmt"
 	"sort"
+	"strings"
 	"time"
 
 	"github.com/hslam/rpc"
@@ -589,4 +591,134 @@ func init() {
 	register(&Scenario{Prop: "C17", Name: "c17/released-together", Quick: []Bound{{0, 0}, {1, 0}}, Thorough: []Bound{{2, 0}}, Body: c17ReleasedTogether, MaxSteps: 100000, BudgetQ: 15})
 	register(&Scenario{Prop: "C17", Name: "c17/one-form-workload", Quick: []Bound{{0, 0}}, Thorough: []Bound{{1, 0}}, Body: oneFormWorkload("C17"), MaxSteps: 200000, BudgetQ: 20, BudgetT: 200})
 	register(&Scenario{Prop: "C18", Name: "c18/one-form-workload", Quick: []Bound{{0, 0}}, Thorough: []Bound{{1, 0}}, Body: oneFormWorkload("C18"), MaxSteps: 200000, BudgetQ: 20, BudgetT: 200})
+}
+
+// the whole stack (Client, Transport, Conn, the fake network, two servers whose handlers take 1 ms and
+// 30 ms): what a handler answers is the answer of a reachable target, whatever its text - including the
+// texts of the package's own error values, which a gateway passes on when its own downstream call
+// failed.  Differential oracle: the same sequence of calls is made twice on fresh clients, once with a
+// neutral error text and once with the text under test; the sequence of targets the calls were executed
+// on must be the same (RoundRobin: it also alternates; LeastTime, after both targets were observed and
+// with no probe due: every call goes to the fast one), every call is executed exactly once and returns
+// exactly the handler's text.
+var c17Texts = []string{rpc.ErrDial.Error(), rpc.ErrTimeout.Error(), rpc.ErrStreamShutdown.Error(), "There is no alive target", "EOF"}
+
+func c17HandlerErrors(x *X) {
+	sched := []rpc.Scheduling{rpc.RoundRobinScheduling, rpc.LeastTimeScheduling}[x.Choose(2)]
+	text := c17Texts[x.Choose(len(c17Texts))]
+	const K = 6
+	failing := 1 + x.Choose(K-2) // which call fails
+	form := []int{formCall, formGo, formCallCtx}[x.Choose(3)]
+	pause := x.Choose(2) == 1 // a round of health probes passes after the failing call
+	n := newNet()
+	wa, wb := newWorld(), newWorld()
+	wa.delay, wb.delay = time.Millisecond, 30*time.Millisecond
+	so := srvOpts{bufSize: 64}
+	sa, _ := startListener(n, wa, "a", so, false)
+	sb, _ := startListener(n, wb, "b", so, false)
+	vs.Quiesce()
+	tagNo := byte(0x10)
+	run := func(text string) (trace string) {
+		c := rpc.NewClient(so.options(n, 64), "a", "b")
+		c.Scheduling = sched
+		c.DialTimeout = 700 * 1e6
+		c.Tick = time.Nanosecond // LeastTime: every call is a probe (plain rotation) until both targets were observed
+		vs.Quiesce()
+		vt.Advance(cTick)
+		vs.Quiesce()
+		one := func(fail bool, f int) (where string, err error) {
+			tagNo++
+			tag := tagNo
+			fl := byte(0)
+			if fail {
+				fl = fErr
+				wa.errText[tag], wb.errText[tag] = text, text
+			}
+			u := newUcall(tag, fl, 16, formCall)
+			done := false
+			vs.GoNamed(fmt.Sprintf("caller%d", tag), func() {
+				switch f {
+				case formGo:
+					ch := make(chan *rpc.Call, 1)
+					call := c.Go(u.method, &u.args, &u.reply, ch)
+					recvCall(ch)
+					err = call.Error
+				case formCallCtx:
+					err = c.CallWithContext(context.Background(), u.method, &u.args, &u.reply)
+				default:
+					err = c.Call(u.method, &u.args, &u.reply)
+				}
+				done = true
+			})
+			vs.Quiesce()
+			for k := 0; k < 40 && !done; k++ {
+				vt.Advance(time.Millisecond)
+				vs.Quiesce()
+			}
+			if !done {
+				x.Fail("C17/call-failed", "a call to two live targets has not returned after 40 ms")
+				return "?", nil
+			}
+			if !fail && (err != nil || !eqBytes(u.reply, u.want())) {
+				x.Fail("C17/call-failed", "a call (error text under test %q): %v", text, err)
+			}
+			ea, eb := wa.execs[tag], wb.execs[tag]
+			switch {
+			case ea == 1 && eb == 0:
+				where = "a"
+			case ea == 0 && eb == 1:
+				where = "b"
+			default:
+				where = "?"
+				x.Fail("C17/not-executed-once", "a call was executed %d times on a and %d times on b", ea, eb)
+			}
+			return
+		}
+		for i := 0; i < 4; i++ {
+			w, _ := one(false, formCall)
+			trace += w
+		}
+		trace += "|"
+		c.Tick = time.Hour
+		for i := 0; i < K; i++ {
+			w, err := one(i == failing, form)
+			trace += w
+			if i == failing {
+				if err == nil || err.Error() != text {
+					x.Fail("C17/handler-error-changed", "the handler on a reachable target returned %q, the Client call returned %v", text, err)
+				}
+				if pause {
+					vt.Advance(3 * cTick)
+					vs.Quiesce()
+				}
+			}
+		}
+		c.Close()
+		vs.Quiesce()
+		return
+	}
+	ref := run("boom")
+	got := run(text)
+	if ref != got {
+		x.Fail("C17/handler-error-reroutes", "scheduling %d, two live targets (handlers take 1 ms on a, 30 ms on b): with a handler error %q at call %d the calls went to %s, with the error text %q to %s", sched, "boom", failing, ref, text, got)
+	}
+	tail := got[strings.Index(got, "|")+1:]
+	if sched == rpc.RoundRobinScheduling {
+		for i := 1; i < len(tail); i++ {
+			if tail[i] == tail[i-1] {
+				x.Fail("C17/roundrobin-order", "two live targets, handler error %q at call %d: calls went to %s", text, failing, got)
+				break
+			}
+		}
+	} else if strings.Trim(tail, "a") != "" {
+		x.Fail("C17/leasttime-not-minimal", "two live targets, both observed (1 ms on a, 30 ms on b), no probe due, handler error %q at call %d: calls went to %s", text, failing, got)
+	}
+	x.Outcome("sched=%d text=%q failing=%d form=%d pause=%v %s %s", sched, text, failing, form, pause, ref, got)
+	sa.Close()
+	sb.Close()
+	vs.Quiesce()
+}
+
+func init() {
+	register(&Scenario{Prop: "C17", Name: "c17/handler-error-texts", Quick: []Bound{{0, 0}}, Thorough: []Bound{{1, 0}}, Body: c17HandlerErrors, MaxSteps: 400000, BudgetQ: 25, BudgetT: 200})
 }
